@@ -85,6 +85,7 @@ partial def loop {σ : Type} (h : IO.FS.Stream) (out : IO.FS.Stream) (st : σ)
   else
     let (st', reply) := step st toks
     out.putStrLn reply
+    out.flush
     loop h out st' step
 
 def run {σ : Type} (init : σ) (step : σ → List String → σ × String) : IO Unit := do
